@@ -14,29 +14,29 @@ from .facts import guard_inner, clean_ty
 
 # (match kind, pattern on protected type, class name, reason)
 CLASS_TABLE = [
-    ('eq', 'desync::scheduler::job_queue::JobQueueCore', 'JobQueue.core', 'queue state + job list of one JobQueue'),
-    ('eq', 'alloc::collections::vec_deque::VecDeque<alloc::sync::Arc<desync::scheduler::job_queue::JobQueue>>', 'SchedulerCore.schedule', 'queues waiting for a pool thread'),
-    ('eq', 'alloc::vec::Vec<(alloc::sync::Arc<std::sync::poison::mutex::Mutex<bool>>, desync::scheduler::scheduler_thread::SchedulerThread)>', 'SchedulerCore.threads', 'pool thread table'),
+    ('eq', 'desync::JobQueueCore', 'JobQueue.core', 'queue state + job list of one JobQueue'),
+    ('eq', 'alloc::collections::vec_deque::VecDeque<alloc::sync::Arc<desync::JobQueue>>', 'SchedulerCore.schedule', 'queues waiting for a pool thread'),
+    ('eq', 'alloc::vec::Vec<(alloc::sync::Arc<std::sync::poison::mutex::Mutex<bool>>, desync::SchedulerThread)>', 'SchedulerCore.threads', 'pool thread table'),
     ('eq', 'usize', 'SchedulerCore.max_threads', 'configured pool maximum'),
-    ('prefix', 'desync::scheduler::scheduler_future::SchedulerFutureResult<', 'SchedulerFuture.result', 'result slot + waker of one scheduler future'),
-    ('eq', 'desync::scheduler::scheduler_future::DrainWakerState', 'DrainWaker.state', 'latch of the poll-side drain waker'),
+    ('prefix', 'desync::SchedulerFutureResult<', 'SchedulerFuture.result', 'result slot + waker of one scheduler future'),
+    ('eq', 'desync::DrainWakerState', 'DrainWaker.state', 'latch of the poll-side drain waker'),
     ('eq', 'core::option::Option<(core::task::wake::Waker, core::task::wake::Waker)>', 'DoubleWaker.0', 'pair of wakers, taken once'),
-    ('prefix', 'core::option::Option<alloc::sync::Arc<desync::pipe::PipeContext<', 'PipeWaker.context', 'one-shot pipe waker payload'),
+    ('prefix', 'core::option::Option<alloc::sync::Arc<desync::PipeContext<', 'PipeWaker.context', 'one-shot pipe waker payload'),
     ('eq', 'core::option::Option<PollFn>', 'PipeContext.poll_fn', 'poll function of a pipe (None once finished)'),
     ('eq', 'S', 'pipe.input', 'input stream of one pipe (user code runs under it by design)'),
     ('eq', 'ProcessFn', 'pipe.process', 'processing closure of one pipe (user code runs under it by design)'),
-    ('prefix', 'desync::pipe::PipeStreamCore<', 'PipeStream.core', 'output buffer + waker slots of a pipe stream'),
+    ('prefix', 'desync::PipeStreamCore<', 'PipeStream.core', 'output buffer + waker slots of a pipe stream'),
     ('eq', 'core::option::Option<Result>', 'sync.result', 'result slot private to one sync call'),
     ('eq', 'core::option::Option<T>', 'sync.result', 'result slot private to one sync call (generic spelling)'),
 ]
 
 # Mutex<bool> plays two roles; split by owning function (root of the closure chain).
 BOOL_OWNERS = {
-    'desync::scheduler::core::SchedulerCore::schedule_dormant': 'thread.busy',
-    'desync::scheduler::core::SchedulerCore::remove_finished_threads': 'thread.busy',
-    'desync::scheduler::desync_scheduler::Scheduler::sync_background': 'sync.ready',
-    '<desync::scheduler::unsafe_job::UnsafeJob as core::ops::drop::Drop>::drop': 'sync.ready',
-    '<desync::scheduler::desync_scheduler::Scheduler as core::fmt::Debug>::fmt': 'thread.busy',
+    'desync::SchedulerCore::schedule_dormant': 'thread.busy',
+    'desync::SchedulerCore::remove_finished_threads': 'thread.busy',
+    'desync::Scheduler::sync_background': 'sync.ready',
+    '<desync::UnsafeJob as core::ops::drop::Drop>::drop': 'sync.ready',
+    '<desync::Scheduler as core::fmt::Debug>::fmt': 'thread.busy',
 }
 
 # classes under which user code runs by design (private to one pipe instance)
